@@ -89,6 +89,34 @@ def run(ctx):
     ctx.check_props([f"prop.c13reject {t} unknown-tag-type-{typ:02x}" for typ, t in unk if typ not in known and typ not in (0xFE, 0xFF)],
                     "prop.c13reject-tagtype")
     ctx.exhaustive["all_256_tag_types"] = not ctx.quick
+    # continuation lines: inside a BF2-compatible section (raw lines are concatenated, any address) a line may carry any tag
+    # type of its family - up to the LAST one of the range - and nothing beyond it
+    fam, edge = [], []
+    for base, top, beyond in ((0x70, 0x73, 0x74), (0x84, 0xA3, 0xA4), (0x84, 0x85, 0x33), (0x70, 0x71, 0x6F), (0x84, 0xA2, 0x82),
+                              (0x84, 0x90, 0x3F), (0x70, 0x72, 0x49)):
+        for typ2, ok in ((top, True), (beyond, False)):
+            w = gb2.Writer()
+            w.text("##Bf3Update: 1")
+            w.text("#>SELECT_IF PROTOCOL=BRP-SER" if base == 0x70 else "#>SELECT_IF PROTOCOL=*")
+            img1, img2 = g.rbytes(rng, 20), g.rbytes(rng, 9)
+            w.line(0xFE, b"")
+            r1 = w.line(base, bytes([len(img1) + 2]) + b"\x00\x00" + img1)
+            w.line(0xFF, b"")
+            w.line(0xFE, b"")
+            r2 = w.line(typ2, bytes([len(img2) + 2]) + b"\x00\x10" + img2)
+            w.line(0xFF, b"")
+            w.text("#>REBOOT")
+            t = w.value()
+            if ok:
+                desc = {0xC1: b"\x02", 0xC3: bytes([0 if base == 0x70 else 2]), 0xC5: b"\x01"}
+                if base == 0x70:
+                    desc[0xC6] = b"\x01"
+                fam.append((t, [(desc, r1 + r2)]))
+            else:
+                edge.append((typ2, hx(t.encode())))
+    ctx.correspond([f"bf2.import 1 {hx(t.encode())}" for t, _ in fam] + [f"bf2.import 1 {t}" for _, t in edge], "bf2.import-families")
+    ctx.check_props([f"prop.c13 {hx(t.encode())} {spec_of(e)}" for t, e in fam], "prop.c13-families")
+    ctx.check_props([f"prop.c13reject {t} continuation-line-of-unknown-tag-type-{typ:02x}" for typ, t in edge], "prop.c13reject-continuation")
     # platform filters
     fl = []
     if ctx.quick:
